@@ -9,3 +9,62 @@ pub use crate::stepsize::{Adam, AdamOptions, DualAverage, DualAverageOptions};
 pub fn logaddexp(a: f64, b: f64) -> f64 {
     crate::math::logaddexp(a, b)
 }
+
+pub use crate::dynamics::{
+    Direction, DivergenceInfo, Hamiltonian, KineticEnergyKind, LeapfrogResult, Point, State,
+    StatePool, TransformedHamiltonian, TransformedPoint,
+};
+pub use crate::nuts::{Collector, NutsError, NutsOptions, SampleInfo};
+pub use crate::sampler_stats::{SamplerStats, StatsDims};
+pub use crate::stepsize::{
+    StepSizeSettings, VerifAcceptanceRateCollector as AcceptanceRateCollector,
+    VerifStepSizeStrategy as StepSizeStrategy,
+};
+
+/// `nuts::draw` (one NUTS transition), generic over the Hamiltonian, RNG and collector.
+pub fn nuts_draw<M, H, R, C>(
+    math: &mut M,
+    init: &mut State<M, H::Point>,
+    rng: &mut R,
+    hamiltonian: &mut H,
+    options: &NutsOptions,
+    collector: &mut C,
+) -> Result<(State<M, H::Point>, SampleInfo), NutsError>
+where
+    M: crate::Math,
+    H: Hamiltonian<M>,
+    R: rand::Rng + ?Sized,
+    C: Collector<M, H::Point>,
+{
+    crate::nuts::draw(math, init, rng, hamiltonian, options, collector)
+}
+
+/// A fresh `AcceptanceRateCollector` (constructor is crate-private).
+pub fn new_acceptance_collector() -> AcceptanceRateCollector {
+    AcceptanceRateCollector::new()
+}
+
+/// (mean, symmetric mean, count, max energy error) accumulated by the collector.
+pub fn acceptance_collector_values(c: &AcceptanceRateCollector) -> (f64, f64, u64, f64) {
+    (
+        c.mean.current(),
+        c.mean_sym.current(),
+        c.mean.count(),
+        c.max_energy_error,
+    )
+}
+
+thread_local! {
+    static MERGE_TRACE: std::cell::RefCell<Vec<(u64, bool, i64, f64)>> =
+        const { std::cell::RefCell::new(Vec::new()) };
+}
+
+/// Called at the end of `NutsTree::merge_into`: (new depth, is_main, index of the tree's draw, log_size).
+pub fn trace_merge(depth: u64, is_main: bool, draw_idx: i64, log_size: f64) {
+    MERGE_TRACE.with(|t| t.borrow_mut().push((depth, is_main, draw_idx, log_size)));
+}
+
+/// Take (and clear) the merge trace of the current thread.
+pub fn take_merge_trace() -> Vec<(u64, bool, i64, f64)> {
+    MERGE_TRACE.with(|t| std::mem::take(&mut *t.borrow_mut()))
+}
